@@ -1390,6 +1390,9 @@ def _visiting_functions(F):
     return {p_ for p_ in visiting if p_ in cyclic or reachable[p_] & cyclic}
 
 
+KEYED_TYPES = ("alloc::collections::btree::", "std::collections::hash::", "hashbrown::")
+
+
 def visit_loops_complete(F, rep, rule="VISIT-ALL"):
     """a loop that hands each element of a list of syntax nodes to a visiting function visits all of them: it is not left
     early (`break`, a `return` that is not an error) and no element is passed over before its visit (`continue`).  What is
@@ -1424,6 +1427,19 @@ def visit_loops_complete(F, rep, rule="VISIT-ALL"):
                     elif x.get("k") == "Ret" and x.get("e") is not None and not is_err_value(x["e"]) and \
                             not (callee(peel(x["e"])) or "").endswith("Result::Err"):
                         bad.append(("return", x))
+                # .. and the loop ranges over the list itself: a keyed copy made in this function (a map / set collected from the
+                # list) has merged the elements with equal keys - `P { x: 1 + "a", x: 1 }` visits only the last `x`
+                base = peel(lp["iter"])
+                while isinstance(base, dict) and base.get("k") == "MethodCall":
+                    base = peel(base["recv"])
+                if isinstance(base, dict) and base.get("k") == "Path" and base.get("res") == "Local" and \
+                        strip_ty(base.get("ty") or "").startswith(KEYED_TYPES) and \
+                        any(t in (base.get("ty") or "") for t in VISITOR_ARG_TYPES):
+                    made_here = any(st.get("k") == "Let" and any(b["hid"] == base["hid"] for b in pat_bindings(st["pat"]))
+                                    for st in nodes(body, "Let"))
+                    if made_here:
+                        bad.append(("the loop ranges over `%s`, a %s built in this function: elements with equal keys are merged" % (
+                            base.get("name"), strip_ty(base["ty"]).split("<")[0].split("::")[-1]), lp))
                 rep.ob(rule, "%s|loop#%d" % (last(fn["_path"], 2), k_), not bad,
                        "every element reaches %s" % last(callee(visits[0])) if not bad else
                        "the loop in %s that hands each element to %s can leave elements out (`%s`, line %s): what is not visited is "
